@@ -114,7 +114,8 @@ Definition call_root (c : call) : path :=
 Fixpoint nochar (c : Ascii.ascii) (s : string) : bool :=
   match s with EmptyString => true | String x t => negb (Ascii.eqb x c) && nochar c t end.
 Definition level_ok (s : string) : bool := nochar ">"%char s.
-Definition ntrans_ok (t : ntrans) : bool := level_ok (fst t) && level_ok (snd t).
+(* only the UPPER level must be free of '>': the first '>' of "a -> b" is then the separator's, whatever b is *)
+Definition ntrans_ok (t : ntrans) : bool := level_ok (fst t).
 Definition key_ok (k : key) : bool :=
   match k with
   | KPec _ _ _ t | KPecTcx _ _ _ _ t | KWvl _ _ t | KBcx _ _ _ t _ | KBem _ _ _ t => ntrans_ok t
@@ -128,3 +129,8 @@ Fixpoint is_prefix (r p : path) : bool :=
   | x :: t, y :: t' => String.eqb x y && is_prefix t t'
   | _, _ => false
   end.
+
+(* a call whose every check passes: the group-level checks and every leaf of every file visit *)
+Definition group_valid (g : group) : bool := g_ok g && forallb it_ok (g_items g).
+Definition call_valid (c : call) : bool :=
+  forallb (fun s : mode * path * list group => forallb group_valid (snd s)) (steps c).
